@@ -303,6 +303,7 @@ func runInject(e *ev.Env) {
 		{"flash-with-level-10", "Flash.With", "status", "saved", 10},
 		{"flash-with-value-crlf", "Flash.With", "status", "x\r\nX-Evil: 1", 65},
 		{"flash-with-printable", "Flash.With", "status", "saved", 65},
+		{"flash-with-127-byte-value", "Flash.With", "status", strings.Repeat("a", 127), 65}, // str8 length byte 0x7f
 		{"flash-withinput-crlf", "Flash.WithInput", "a", "x\r\nX-Evil: 1", 0},
 	} {
 		f := f
